@@ -189,8 +189,20 @@ def run(report, p):
                     raise AnalysisError(f"history_file_name_regex {rx!r}: the name part is not `.+`; the sample names all match, but acceptance of every folder name is not established")
         r3.check(ok3, gen_helper, rets[0], "a generated manifest name would not be recognised by the loader: " + why, construct="name template vs loader regex")
         loader = p.funcs.get(f"{HIST}.load_from_path")
-        lt = norm(loader.node)
-        r3.check("int(parts[0][0])" in lt and "endswith(ascmhl_file_extension)" in lt and "os.path.splitext(filename)" in lt, loader, loader.node, "the loader no longer filters by extension / parses the generation number from the first regex group", construct="loader name parsing")
+        # by shape, not by the names of locals: int(<findall result>[0][0]), <name>.endswith(<extension constant>), os.path.splitext(<name>)
+        lfs = [loader] + [p.funcs[q] for q in p.reachable([loader.qual]) if q in p.funcs and p.funcs[q].module is loader.module and q != loader.qual]
+        has_int = has_ext = has_split = False
+        for lf in lfs:
+            for n in walk_no_nested(lf.node):
+                if isinstance(n, ast.Call) and norm(n.func) == "int" and n.args and isinstance(n.args[0], ast.Subscript) and isinstance(n.args[0].value, ast.Subscript) and p.fold(n.args[0].slice, lf) == 0 and p.fold(n.args[0].value.slice, lf) == 0:
+                    has_int = True
+                if isinstance(n, ast.Call) and isinstance(n.func, ast.Attribute) and n.func.attr == "endswith" and n.args and p.fold(n.args[0], lf) == ext:
+                    has_ext = True
+                if isinstance(n, ast.Call) and norm(n.func).endswith("splitext"):
+                    has_split = True
+        if not (has_int and has_ext and has_split):
+            raise AnalysisError(f"{loader.qual}: how the loader filters manifest names by extension and parses the generation number out of the name was not recognised (int(parts[0][0]) / endswith(extension) / splitext)")
+        r3.check(True, loader, loader.node, "")
 
     # the loader's skip filter, evaluated on generated names: no manifest the tool itself names may be passed over
     if gen_helper is not None and loader is not None:
